@@ -594,3 +594,12 @@ RULE["C17"] += (" Service cells also with a serving context that reaches its dea
                 "write under a live context on the same connection must succeed and arrive.")
 RULE["C18"] += " The upgrade frame itself, and frames preceding the raw data, can be 4000-70000 bytes (larger than the reader's buffer, tail coalesced with what follows)."
 RULE["C10"] += " Plus a subscription handler that streams continues-replies until a reply attempt fails, on pipe / unix / tcp, whose client reads 0 or 3 replies and vanishes: the handler must see its writes fail and return, the connection must be released."
+RULE["C18"] += (" Churn cases (TestC18Twins): 2-6 client connections of one process, each against a peer with a stream of its own, opened / pinged / upgraded / read "
+                "(frame and raw reads mixed) / closed once, twice or three times in a generated interleaving driven from one goroutine, judged by the cursor model per "
+                "connection; handler-side variant: 2-8 upgraded calls served at the same time by one service. Non-trivial there = at least two connections open at once.")
+RULE["C06"] += " Plus interface names of 200-70000 bytes (every length 249-262) in three label shapes, glued to the following member with no separator, blank, tab, newline, CRLF, comment or dot, and names whose last letters spell the beginning of a keyword."
+RULE["C20"] += " Name lists also contain entries that merely contain 'varlink' (suffix, prefix, infix, with dots) before the exact entry or instead of one."
+RULE["C13"] += " A third of the serving cycles are preceded by a refused serving attempt (address without protocol, unknown protocol, empty path)."
+RULE["C16"] += " A third of the schedules (and four fixed ones: held client, introspecting clients, Shutdown, sustained registration attempts) start every round with refused serving attempts before the real one."
+RULE["C08"] += (" Some call steps are answered by a foreign peer with an error of ANOTHER interface whose member name the description declares (with fitting or empty parameters): the "
+                "generic *varlink.Error of exactly that name must come back; others with a well-formed success frame (for methods without output: {}, null or no parameters member): success with equal values.")
